@@ -25,17 +25,49 @@
 #include <signal.h>
 #include <poll.h>
 #include <errno.h>
+#include <fcntl.h>
 #include <sys/mman.h>
 #include <sys/wait.h>
 /* declared by hand: gcc 12 ships lsan_interface.h but not allocator_interface.h */
+void __sanitizer_print_stack_trace(void);
 int __lsan_do_recoverable_leak_check(void);
 int __sanitizer_install_malloc_and_free_hooks(void (*malloc_hook)(const volatile void *, size_t),
                                               void (*free_hook)(const volatile void *));
 
+void __sanitizer_print_stack_trace(void);
 /* ---- allocation accounting (exact, via the sanitizer's malloc/free hooks) ---- */
 static volatile long n_live_blocks;
-static void hook_malloc(const volatile void *p, size_t sz) { (void)sz; if(p) n_live_blocks++; }
-static void hook_free(const volatile void *p) { if(p) n_live_blocks--; }
+/* with C08_TRACEALLOC set, remember what is outstanding, to say what a leak consists of */
+#define NTRACK 8192
+static struct { const volatile void *p; size_t sz; } track[NTRACK];
+static int tracking;
+static void hook_malloc(const volatile void *p, size_t sz)
+{
+  if(!p) return;
+  n_live_blocks++;
+  if(tracking) for(int i = 0; i < NTRACK; i++) if(!track[i].p) { track[i].p = p; track[i].sz = sz; break; }
+  if(tracking && getenv("C08_TRACESIZE") && (size_t)atol(getenv("C08_TRACESIZE")) == sz) {
+    static int busy; if(!busy) { busy = 1; fprintf(stderr, "alloc of %zu bytes at:\n", sz); __sanitizer_print_stack_trace(); busy = 0; } }
+}
+static void hook_free(const volatile void *p)
+{
+  if(!p) return;
+  n_live_blocks--;
+  if(tracking) for(int i = 0; i < NTRACK; i++) if(track[i].p == p) { track[i].p = NULL; break; }
+}
+static void report_outstanding(void)
+{
+  if(!tracking) return;
+  fprintf(stderr, "outstanding blocks:");
+  for(int i = 0; i < NTRACK; i++) if(track[i].p) fprintf(stderr, " %zu", track[i].sz);
+  fprintf(stderr, "\n");
+}
+
+/* LeakSanitizer's own (reachability based, ~6 ms) check is run to confirm every leak the exact
+ * accounting sees, on every 8th other case, and on all cases when C08_LSAN_ALWAYS is set;
+ * its verdict is printed after '#', as a cross-check for the reader */
+static long case_no;
+static int lsan_wanted(int leaked) { return leaked || case_no % 8 == 0 || getenv("C08_LSAN_ALWAYS") != NULL; }
 
 /* ---- shared progress cell ---- */
 struct shared { volatile int step; volatile int uninit; volatile int trlen; char trace[8192]; };
@@ -253,7 +285,7 @@ static void run_W(void)
   for(int i = 0; i < nHD; i++) { free(HD[i]->actions); free(HD[i]); HD[i] = NULL; }
   memset(W, 0, sizeof W);
   long left = n_live_blocks - base;
-  int lsan = __lsan_do_recoverable_leak_check();
+  int lsan = lsan_wanted(left != 0) ? __lsan_do_recoverable_leak_check() : -1;
   printf(" leak=%d%s tr=%s # lsan=%d\n", left != 0, sh->uninit ? " UNINIT" : "", sh->trlen ? (char *)sh->trace : "-", lsan);
 }
 
@@ -313,11 +345,13 @@ static void classify(int status, const char *err, char *out, size_t outlen)
   snprintf(out, outlen, "%s %d tr=%s # %s", kind, sh->step, sh->trlen ? (char *)sh->trace : "-", detail);
 }
 
+static void warm_output(TickitTerm *tt, const char *bytes, size_t len, void *user) { }
 static void run_T(void);
 static void run_O(void);
 
 static void child_main(void)
 {
+  if(getenv("C08_TRACEALLOC")) tracking = 1;
   if(vh_ntok < 1) { printf("ERR empty\n"); return; }
   alarm(20);
   switch(vh_tok[0][0]) {
@@ -342,11 +376,32 @@ int main(void)
     TickitWindow *c = tickit_window_new(r, WRECT, 0);
     tickit_window_flush(r);
     tickit_window_unref(c); tickit_window_unref(r); tickit_term_unref(t);
+    /* get_termkey() of term.c goes through setenv("TERM", ...): libc's environment keeps
+     * the string and a search-tree node for the rest of the process */
+    const char *was = getenv("TERM");
+    char *keep = was ? strdup(was) : NULL;
+    setenv("TERM", "xterm", 1);
+    if(keep) { setenv("TERM", keep, 1); free(keep); } else unsetenv("TERM");
+    TickitTerm *x = tickit_term_build(&(struct TickitTermBuilder){ .termtype = "xterm", .output_func = warm_output });
+    if(x) {
+      Tickit *k = tickit_new_for_term(x);
+      tickit_window_expose(tickit_get_rootwin(k), NULL);
+      tickit_tick(k, TICKIT_RUN_NOHANG);
+      tickit_unref(k);
+    }
+  }
+  /* make the sanitizer load its symbol tables once, here, so that the forked children inherit them */
+  {
+    int saved = dup(2), devnull = open("/dev/null", O_WRONLY);
+    if(saved >= 0 && devnull >= 0) { dup2(devnull, 2); __sanitizer_print_stack_trace(); dup2(saved, 2); }
+    if(saved >= 0) close(saved);
+    if(devnull >= 0) close(devnull);
   }
   while(vh_next()) {
     fflush(stdout);
     int po[2], pe[2];
     if(pipe(po) || pipe(pe)) { printf("ERR pipe\n"); continue; }
+    case_no++;
     sh->step = -1; sh->uninit = 0; sh->trlen = 0; sh->trace[0] = 0;
     pid_t pid = fork();
     if(pid < 0) { printf("ERR fork\n"); continue; }
@@ -376,6 +431,7 @@ int main(void)
     out[no] = 0; err[ne] = 0;
     int status = 0;
     waitpid(pid, &status, 0);
+    if(getenv("C08_TRACEALLOC")) fputs(err, stderr);
     if(WIFEXITED(status) && WEXITSTATUS(status) == 0 && no > 0 && out[no - 1] == '\n' && !strchr(out, '\n')[1]) {
       fputs(out, stdout);
     }
